@@ -138,7 +138,7 @@ def validate_evidence(path: str) -> str | None:
     return None if r.returncode == 0 else r.stderr[-1500:]
 
 
-def run_check(pid: str, tier: str, seed: int, jobs: int) -> int:
+def run_check(pid: str, tier: str, seed: int, jobs: int, dump_instances: bool = False) -> int:
     t0 = time.time()
     mod = importlib.import_module(f"mc.checks.{pid.lower()}")
     scratch = os.path.join(SCRATCH, f"{pid}-{os.getpid()}")
@@ -151,7 +151,17 @@ def run_check(pid: str, tier: str, seed: int, jobs: int) -> int:
             c.setdefault("tier", tier)
             c["shard"] = i
             c["scratch"] = os.path.join(scratch, f"w{i}")
+            c["known_instances"] = os.path.join(ROOT, "known_instances", f"{pid}.txt")
+            if dump_instances:
+                c["dump_instances"] = True
+                c["known_instances"] = None
         results = run_shards(pid, cfgs, scratch, jobs)
+        if dump_instances:
+            inst = sorted({h for r in results for h in r.get("instances", [])})
+            os.makedirs(os.path.join(ROOT, "known_instances"), exist_ok=True)
+            with open(os.path.join(ROOT, "known_instances", f"{pid}.txt"), "w") as f:
+                f.write("\n".join(inst) + "\n")
+            print(f"wrote {len(inst)} violating instances to known_instances/{pid}.txt (maintenance action, never done by a normal run)")
         bad = [r for r in results if not r.get("ok")]
         if bad:
             print(f"HARNESS-ERROR property={pid} {bad[0]['error'][-3000:]}")
@@ -323,6 +333,7 @@ def main(argv=None) -> int:
     ap.add_argument("--replay")
     ap.add_argument("--jobs", type=int, default=CORES)
     ap.add_argument("--selftest", action="store_true")
+    ap.add_argument("--dump-instances", action="store_true", help="maintenance: rewrite known_instances/<id>.txt from this run")
     a = ap.parse_args(argv)
     if a.selftest:
         return selftest()
@@ -338,7 +349,7 @@ def main(argv=None) -> int:
         seed = int(os.environ.get("VERIF_SEED", "0"))
     except ValueError:
         seed = 0
-    return run_check(pid, tier, seed, a.jobs)
+    return run_check(pid, tier, seed, a.jobs, a.dump_instances)
 
 
 if __name__ == "__main__":
